@@ -78,10 +78,35 @@ PROPS = {
     },
     "C06": {
         "suites": [("forest", 300, 6000)],
-        "proved_scope": "every refusal produced by the argument checks (structure check, sibling reference check, replace / element_wrap / element_unwrap pre-checks) returns the forest unchanged; same-position append is the identity",
-        "not_proved": "that no error can arise after the checks (late NodeError unreachable under the invariant) and absence of panics under the invariant",
+        "proved_scope": (
+            "for ALL forests satisfying the invariant (Forest.Inv) and ALL live-handle arguments, for every call of the mutating API "
+            "(Forest.Call: append, prepend, insert_after, insert_before, detach, remove, replace, element_wrap, element_unwrap, clone_node, "
+            "any_append, append_attribute_node / append_namespace_node, attributes_mut / namespaces_mut insert / remove / clear, "
+            "set_element_name, text / comment / PI setters, text_content_mut + set): "
+            "C06_atomic (a call that returns Err has changed nothing: the argument checks are the only failure points, the late "
+            "indextree checked_append / checked_prepend / checked_insert_after / checked_insert_before refusals (NodeError) are "
+            "unreachable once structure check and sibling reference check have passed, also inside replace / element_wrap after the "
+            "subtree has been dropped / detached), C06_nopanic + C06_documentedPanic (the outcome is a panic exactly for "
+            "mapInsert / mapRemove / mapClear / setElementName on a non-element, and then nothing has changed; mapInsert on an element "
+            "never panics; element_unwrap's unwrap on last_child, text_content_mut's unwraps and clone_node's any_append(..).unwrap() / "
+            "first_child unwrap are unreachable), C06_corrupt_unreachable (no call leaves the list semantics of the indextree "
+            "primitives: corrupt stays false; in particular the scratch element clone_node splices out has exactly one child). "
+            "Per-call statements C06_<op>, C06_<op>_atomic, C06_no_panic_<op>, C06_corrupt_unreachable_<op>, C06_panic_<op>_iff; "
+            "the proofs (Lemmas/Fatom*.lean) use only the weak invariant Forest.W (handles distinct and below next, only elements "
+            "and documents have children), except element_unwrap (child ordering) and clone_node (validity of the source subtree); "
+            "they also show that every carried-out call keeps Forest.W and frames every node outside the moved subtree and the "
+            "consolidated text neighbour (parent, liveness, value up to text content)"
+        ),
+        "not_proved": (
+            "nothing of C06 as stated for the model; outside C06: preservation of the FULL invariant (ordering, unique keys, no adjacent "
+            "text) by the calls is C04's statement and is only proved here for the weak part Forest.W; that a refused call leaves the "
+            "real arena byte-identical is the correspondence check (forest suite snapshot before/after every Err), not a theorem about Rust; "
+            "create_missing_prefixes / deduplicate_namespaces / the fixed-tree builders are not in Forest.Call (they belong to the scope "
+            "and fixed layers); calls with dead (removed) handles are outside the hypothesis (the moves are in fact proved without it: "
+            "a dead argument is refused by the structure check)"
+        ),
         "modelled": EXTERNAL,
-        "assumptions": ["arguments are live handles"],
+        "assumptions": ["arguments are live handles", "the forest satisfies Forest.Inv (C04: every reachable forest does; evaluated true after every step of the correspondence runs)"],
     },
     "C11": {
         "suites": [("forest", 300, 6000)],
